@@ -320,9 +320,11 @@ package rux
 //
 //@ spec node(e *list.Element) *cacheNode = cast(e.Value, *cacheNode)
 //@ spec view(c *cachedRoutes, k string) *Route = node(c.hashMap[k]).Value
+//@ opaque othersKeepOrder(c *cachedRoutes, k string) bool = forall x *list.Element :: lmem(c.list, x) && (!(k in c.hashMap) || x != c.hashMap[k]) ==> rank(x) == old(rank(x))
 //@ spec lruKey(c *cachedRoutes, k string) bool = k in c.hashMap && (forall x *list.Element :: lmem(c.list, x) ==> rank(c.hashMap[k]) <= rank(x))
-//@ spec mostRecent(c *cachedRoutes, k string) bool = forall x *list.Element :: lmem(c.list, x) && x != c.hashMap[k] ==> rank(x) < rank(c.hashMap[k])
-//@ spec cacheInv(c *cachedRoutes) bool = c.list != nil && c.lock != nil && c.hashMap != nil && guard(c.list) == c.lock
+//@ opaque mostRecent(c *cachedRoutes, k string) bool = forall x *list.Element :: lmem(c.list, x) && x != c.hashMap[k] ==> rank(x) < rank(c.hashMap[k])
+// cacheInv is opaque: only the methods of cachedRoutes see its definition (`reveals cacheInv`).
+//@ opaque cacheInv(c *cachedRoutes) bool = c.list != nil && c.lock != nil && c.hashMap != nil && guard(c.list) == c.lock
 //@     && (forall k string :: k in c.hashMap ==> c.hashMap[k] != nil && lmem(c.list, c.hashMap[k]) && hastype(c.hashMap[k].Value, *cacheNode)
 //@             && node(c.hashMap[k]) != nil && node(c.hashMap[k]).Key == k)
 //@     && (forall e *list.Element :: lmem(c.list, e) ==> e != nil && hastype(e.Value, *cacheNode) && node(e) != nil
@@ -332,17 +334,20 @@ package rux
 
 //
 //@ func NewCachedRoutes [C14]
+//@   reveals cacheInv, mostRecent, othersKeepOrder
 //@   modifies lmem(_, _), lclock(_), ln(_), guard(_)
 //@   ghostset guard(result.list) = result.lock
 //@   ensures inv: size >= 0 ==> cacheInv(result)
 //@   ensures empty: len(result.hashMap) == 0 && result.size == size && fresh(result) && held(result.lock) == 0
 //
 //@ func (*cachedRoutes).Len [C14, C03]
+//@   reveals cacheInv, mostRecent, othersKeepOrder
 //@   requires cacheInv(c) && held(c.lock) == 0
 //@   modifies held(c.lock)
 //@   ensures result == len(c.hashMap) && result <= max(c.size, 0) && held(c.lock) == 0
 //
 //@ func (*cachedRoutes).Set [C14, C03]
+//@   reveals cacheInv, mostRecent, othersKeepOrder
 //@   requires cacheInv(c) && held(c.lock) == 0
 //@   modifies held(c.lock), entries(c.hashMap), lmem(c.list, _), rank(_), lclock(c.list), ln(c.list), lback(c.list), cacheNode.Value
 //@   ensures inv: cacheInv(c) && held(c.lock) == 0 && result
@@ -356,17 +361,19 @@ package rux
 //@   ensures zero_capacity: c.size <= 0 ==> len(c.hashMap) == 0
 //@   ensures bounded: len(c.hashMap) <= max(c.size, 0)
 //@   ensures stored_is_most_recent: c.size >= 1 ==> k in c.hashMap && mostRecent(c, k)
-//@   ensures others_keep_order: forall x *list.Element :: lmem(c.list, x) && (!(k in c.hashMap) || x != c.hashMap[k]) ==> rank(x) == old(rank(x))
+//@   ensures others_keep_order: othersKeepOrder(c, k)
 //
 //@ func (*cachedRoutes).Get [C14, C03]
+//@   reveals cacheInv, mostRecent, othersKeepOrder
 //@   requires cacheInv(c) && held(c.lock) == 0
 //@   modifies held(c.lock), rank(_), lclock(c.list), lback(c.list)
 //@   ensures inv: cacheInv(c) && held(c.lock) == 0
 //@   ensures lookup: result1 == (k in c.hashMap) && (result1 ==> result0 == view(c, k)) && (!result1 ==> result0 == nil)
 //@   ensures read_is_most_recent: result1 ==> mostRecent(c, k)
-//@   ensures others_keep_order: forall x *list.Element :: lmem(c.list, x) && (!(k in c.hashMap) || x != c.hashMap[k]) ==> rank(x) == old(rank(x))
+//@   ensures others_keep_order: othersKeepOrder(c, k)
 //
 //@ func (*cachedRoutes).Delete [C14, C03]
+//@   reveals cacheInv, mostRecent, othersKeepOrder
 //@   requires cacheInv(c) && held(c.lock) == 0
 //@   modifies held(c.lock), entries(c.hashMap), lmem(c.list, _), ln(c.list), lback(c.list)
 //@   ensures inv: cacheInv(c) && held(c.lock) == 0
@@ -374,6 +381,7 @@ package rux
 //@   ensures others_untouched: forall j string :: j in c.hashMap ==> view(c, j) == old(view(c, j))
 //
 //@ func (*cachedRoutes).Has [C14, C03]
+//@   reveals cacheInv, mostRecent, othersKeepOrder
 //@   requires cacheInv(c) && held(c.lock) == 0
 //@   modifies held(c.lock), rank(_), lclock(c.list), lback(c.list)
 //@   ensures inv: cacheInv(c) && held(c.lock) == 0
@@ -704,3 +712,109 @@ package rux
 //@   modifies rwOf(w).status, rwOf(w).length, hdrCalls(rwOf(w).Writer), hdrStatus(rwOf(w).Writer), body(rwOf(w).Writer), early(rwOf(w).Writer)
 //@   panics *
 //@   ensures hastype(w, *responseWriter) && old(wInv(rwOf(w))) ==> wInv(rwOf(w))
+
+// ---------------------------------------------------------------------------
+// Route tables and lookup (C01, C02, C06, C07, C13, C14)
+//
+// regexp (assumed): reAcc(re, s): re matches s; reSub(re, s, i): i-th submatch of the first match;
+// nsub(re): number of capturing groups.
+//@ spec reAcc(re *regexp.Regexp, s string) bool = uf("re.match", bool, re, s)
+//@ spec reSub(re *regexp.Regexp, s string, i int) string = uf("re.sub", string, re, s, i)
+//@ spec nsub(re *regexp.Regexp) int = uf("re.nsub", int, re)
+//@ extern (*regexp.Regexp).FindAllStringSubmatch(re, s, n) (ss)
+//@   requires re != nil
+//@   ensures (len(ss) > 0) == reAcc(re, s) && off(ss) == 0
+//@   ensures len(ss) > 0 ==> off(ss[0]) == 0
+//@   ensures len(ss) > 0 ==> len(ss[0]) == nsub(re) + 1
+//@       && (forall a int :: off(ss[0]) <= a && a <= off(ss[0]) + nsub(re) ==> cell([]string, arr(ss[0]), a) == reSub(re, s, a - off(ss[0])))
+//@   ensures nsub(re) >= 0
+//@ extern (*regexp.Regexp).NumSubexp(re) (n)
+//@   requires re != nil
+//@   pure
+//@   ensures n == nsub(re) && n >= 0
+//
+// distinctVars(rt): ghost flag recorded at registration: the variable names of the pattern are pairwise distinct.
+//@ ghost distinctVars(ref) bool
+// routeWF and psOK are opaque outside matchRegex and the registration code that establishes them.
+//@ opaque routeWF(rt *Route) bool = rt != nil && rt.regex != nil && nsub(rt.regex) == len(rt.matches) && (distinctVars(rt) ==> distinctNames(rt))
+//@ spec distinctNames(rt *Route) bool = forall j int, k int :: 0 <= j && j < k && k < len(rt.matches) ==> rt.matches[j] != rt.matches[k]
+// psOK: the parameters are exactly the submatches, positionally (for patterns whose variable names are
+// distinct; with a repeated name the last occurrence wins and the clause leaves the value open).
+//@ opaque psOK(ps Params, rt *Route, p string) bool = ps != nil && len(ps) <= len(rt.matches)
+//@     && (forall j int :: 0 <= j && j < len(rt.matches) ==> rt.matches[j] in ps)
+//@     && (distinctVars(rt) ==> (forall j int :: 0 <= j && j < len(rt.matches) ==> ps[rt.matches[j]] == reSub(rt.regex, p, j + 1)))
+//
+//@ func (*Route).matchRegex [C02, C13, C01]
+//@   reveals routeWF, psOK
+//@   requires routeWF(r)
+//@   ensures accepts: ok == reAcc(r.regex, path)
+//@   ensures no_params_without_match: !ok ==> ps == nil
+//@   ensures params_are_the_submatches: ok ==> psOK(ps, r, path) && fresh(ps)
+//@ loop (*Route).matchRegex #0
+//@   vars rangeindex
+//@   invariant -1 <= rangeindex && rangeindex < len($call_FindAllStringSubmatch_0[0]) - 1
+//@   invariant $makemap0 != nil && fresh($makemap0) && len($makemap0) <= rangeindex + 1
+//@   invariant forall j int :: 0 <= j && j <= rangeindex ==> r.matches[j] in $makemap0
+//@   invariant distinctVars(r) ==> (forall j int :: 0 <= j && j <= rangeindex ==> $makemap0[r.matches[j]] == reSub(r.regex, path, j + 1))
+//
+//@ spec copyOf(a *Route, b *Route) bool = a.name == b.name && a.path == b.path && a.methods == b.methods && a.start == b.start
+//@     && a.spath == b.spath && a.handler == b.handler && a.handlers == b.handlers && a.Opts == b.Opts
+//@ func (*Route).copyWithParams [C07, C02, C14]
+//@   modifies isReg(_)
+//@   ghostset isReg(result) = isReg(r)
+//@   ensures copy: result != nil && fresh(result) && copyOf(result, r) && result.params == ps && result.regex == nil && len(result.matches) == 0
+//@   ensures isReg(result) == old(isReg(r)) && (forall x ref :: x != result ==> isReg(x) == old(isReg(x)))
+
+//@ spec listWF(rs routes) bool = forall i int :: 0 <= i && i < len(rs) ==> rs[i] != nil && routeWF(rs[i])
+//@ spec cacheReady(r *Router) bool = r.cachedRoutes != nil ==> cacheInv(r.cachedRoutes) && held(r.cachedRoutes.lock) == 0
+//@     && (forall k string :: k in r.cachedRoutes.hashMap ==> view(r.cachedRoutes, k) != nil)
+//@ spec tablesWF(r *Router) bool = (forall k string :: k in r.regularRoutes ==> listWF(r.regularRoutes[k]))
+//@     && (forall k string :: k in r.irregularRoutes ==> listWF(r.irregularRoutes[k]))
+//@     && cacheReady(r)
+//@     && (r.enableCaching && r.cachedRoutes == nil ==> (forall k string :: !(k in r.regularRoutes)) && (forall k string :: !(k in r.irregularRoutes)))
+//
+//@ func (*Router).cacheDynamicRoute [C07, C14, C13, C03]
+//@   requires route != nil && cacheReady(r) && (r.enableCaching ==> r.cachedRoutes != nil)
+//@   modifies held(r.cachedRoutes.lock), entries(r.cachedRoutes.hashMap), lmem(r.cachedRoutes.list, _), rank(_), lclock(r.cachedRoutes.list), ln(r.cachedRoutes.list), lback(r.cachedRoutes.list), cacheNode.Value
+//@   modifies isReg(_)
+//@   ensures ready: cacheReady(r)
+//@   ensures[C14] stored_under_key: r.enableCaching && r.cachedRoutes.size >= 1 ==> key in r.cachedRoutes.hashMap
+//@       && copyOf(view(r.cachedRoutes, key), route) && view(r.cachedRoutes, key).params == ps && fresh(view(r.cachedRoutes, key))
+//@   ensures disabled_no_effect: !r.enableCaching ==> (forall k string :: (k in r.cachedRoutes.hashMap) == old(k in r.cachedRoutes.hashMap))
+//@   ensures regs: forall x ref :: allocated(x) ==> isReg(x) == old(isReg(x))
+
+// Lookup in the tables. seg(p): position of the second '/' in p minus one; rkey: the key of the regular tier.
+//@ spec seg(p string) int = indexof(substr(p, 1, len(p) - 1), "/")
+//@ spec rkey(m string, p string) string = m + substr(p, 1, seg(p))
+//@ spec qualR(rt *Route, p string) bool = prefixof(rt.start, p) && reAcc(rt.regex, p)
+//@ spec noneR(rs routes, p string) bool = forall j int :: 0 <= j && j < len(rs) ==> !qualR(rs[j], p)
+//@ spec firstR(rs routes, p string, i int) bool = 0 <= i && i < len(rs) && qualR(rs[i], p) && (forall j int :: 0 <= j && j < i ==> !qualR(rs[j], p))
+//@ spec noneI(rs routes, p string) bool = forall j int :: 0 <= j && j < len(rs) ==> !reAcc(rs[j].regex, p)
+//@ spec firstI(rs routes, p string, i int) bool = 0 <= i && i < len(rs) && reAcc(rs[i].regex, p) && (forall j int :: 0 <= j && j < i ==> !reAcc(rs[j].regex, p))
+//@ spec regHit(r *Router, m string, p string) bool = seg(p) > 0 && rkey(m, p) in r.regularRoutes && !noneR(r.regularRoutes[rkey(m, p)], p)
+//@ spec irrHit(r *Router, m string, p string) bool = m in r.irregularRoutes && !noneI(r.irregularRoutes[m], p)
+//@ spec cacheHit(r *Router, k string) bool = r.enableCaching && r.cachedRoutes != nil && k in r.cachedRoutes.hashMap
+//
+//@ func (*Router).match [C01, C02, C07, C13, C14, C03]
+//@   requires len(path) >= 1 && tablesWF(r)
+//@   modifies held(r.cachedRoutes.lock), entries(r.cachedRoutes.hashMap), lmem(r.cachedRoutes.list, _), rank(_), lclock(r.cachedRoutes.list), ln(r.cachedRoutes.list), lback(r.cachedRoutes.list), cacheNode.Value
+//@   modifies isReg(_)
+//@   ensures wf: tablesWF(r)
+//@   ensures[C01, C02] static_first: (method + path) in r.stableRoutes ==> rt == r.stableRoutes[method + path] && ps == nil
+//@   ensures[C07] cache_hit: !((method + path) in r.stableRoutes) && old(cacheHit(r, method + path)) ==> rt == old(view(r.cachedRoutes, method + path)) && ps == rt.params
+//@   ensures[C01] regular_first_match: !((method + path) in r.stableRoutes) && !old(cacheHit(r, method + path)) && regHit(r, method, path)
+//@       ==> (exists i int :: firstR(r.regularRoutes[rkey(method, path)], path, i) && rt == r.regularRoutes[rkey(method, path)][i]) && psOK(ps, rt, path)
+//@   ensures[C01] irregular_first_match: !((method + path) in r.stableRoutes) && !old(cacheHit(r, method + path)) && !regHit(r, method, path) && irrHit(r, method, path)
+//@       ==> (exists i int :: firstI(r.irregularRoutes[method], path, i) && rt == r.irregularRoutes[method][i]) && psOK(ps, rt, path)
+//@   ensures[C01] no_route_only_if_none: !((method + path) in r.stableRoutes) && !old(cacheHit(r, method + path)) && !regHit(r, method, path) && !irrHit(r, method, path)
+//@       ==> rt == nil && ps == nil
+//@   ensures[C14, C07] cached_under_lookup_key: !((method + path) in r.stableRoutes) && !old(cacheHit(r, method + path)) && rt != nil && r.enableCaching && r.cachedRoutes.size >= 1
+//@       ==> (method + path) in r.cachedRoutes.hashMap && copyOf(view(r.cachedRoutes, method + path), rt) && view(r.cachedRoutes, method + path).params == ps
+//@ loop (*Router).match #0
+//@   vars rangeindex
+//@   invariant -1 <= rangeindex && rangeindex < len($lookup1) && tablesWF(r)
+//@   invariant forall j int :: 0 <= j && j <= rangeindex ==> !qualR($lookup1[j], path)
+//@ loop (*Router).match #1
+//@   vars rangeindex
+//@   invariant -1 <= rangeindex && rangeindex < len($lookup2) && tablesWF(r)
+//@   invariant forall j int :: 0 <= j && j <= rangeindex ==> !reAcc($lookup2[j].regex, path)
